@@ -215,18 +215,22 @@ partial def findSub : Expr → Option Expr
   | _ => none
 
 /-- the per-row values of the subquery expression over the outer table, batch by batch -/
-def subValues (dev : Dev) (m : Meta) (c : Case) (si : SubInfo) (se : Expr) (R : Table) : Except Err (List Val) := do
+def subValues (dev : Dev) (m : Meta) (c : Case) (si : SubInfo) (se : Expr) (R : Table) (pre : List Expr := []) :
+    Except Err (List (Row × Val)) := do
   let bs := batchesOf m.layout m.cuts0 R
-  let parts ← bs.mapM fun b => do
+  let parts ← bs.mapM fun b0 => do
+    -- conjuncts without subquery are pushed into the scan: the evaluator sees the batch already filtered
+    let b ← b0.filterM fun l => pre.allM fun e => truthy (eval cx0 [l] e)
     let vs ← b.mapM fun l => subValue dev m c si l se
     let isCorrScalar := si.correlated && (match se with | .scalarSub _ => true | _ => false)
     -- Int32 / Date32 results have no arm in `results_array_from_scalars`: NullArray
     let narrowTy : Bool := match si.agg, si.out with
       | none, .col j => let t := m.tys1.getD j "i64"; t == "i32" || t == "date"
       | _, _ => false
-    pure (if isCorrScalar then
+    let vs' := if isCorrScalar then
             (if dev.corrScalarFirstRowTyped && narrowTy then vs.map (fun _ => Val.null) else typedFromFirst dev vs)
-          else vs)
+          else vs
+    pure (b.zip vs')
   pure parts.flatten
 
 /-! ### the decorrelated paths -/
@@ -300,15 +304,15 @@ def modelRun (dev : Dev) (m : Meta) (c : Case) : Except Err Table := do
              if ← truthy (evalWith v l sc) then pure (some l) else pure none
          | _ => joinKeep dev c si se R)
       else do
-        let vs ← subValues dev m c si se R
-        (R.zip vs).filterMapM fun (l, v) => do
+        let lvs ← subValues dev m c si se R others
+        lvs.filterMapM fun (l, v) => do
           if ← truthy (evalWith v l sc) then pure (some l) else pure none
     let kept ← kept.filterM fun l => others.allM fun e => truthy (eval cx0 [l] e)
     kept.mapM fun l => evalList cx0 [l] st.es
   | none =>
     let some se := st.es.findSome? findSub | .error (.unsupported "no subquery in the SELECT list")
-    let vs ← subValues dev m c si se R
-    (R.zip vs).mapM fun (l, v) => st.es.mapM fun e => evalWith v l e
+    let lvs ← subValues dev m c si se R
+    lvs.mapM fun (l, v) => st.es.mapM fun e => evalWith v l e
 
 /-! ### attribution -/
 
